@@ -57,6 +57,17 @@ func c19Read(path string) ([]byte, error) {
 	return b, nil
 }
 
+// c19SlowRule answers the writer's "shall I rotate" after a while: a slow disk, as seen from the writer goroutine.
+type c19SlowRule struct {
+	RotateRule
+	d time.Duration
+}
+
+func (s *c19SlowRule) ShallRotate(size int64) bool {
+	zsim.Sleep(s.d)
+	return s.RotateRule.ShallRotate(size)
+}
+
 func c19Run(r *zsim.Run) {
 	o := r.Ops
 	base := os.Getenv("ZSIM_TMP")
@@ -102,6 +113,41 @@ func c19Run(r *zsim.Run) {
 		mt := now().Add(-time.Duration(1+o.Intn(200)) * time.Hour).Add(time.Duration(i) * time.Minute)
 		os.Chtimes(name, mt, mt)
 	}
+	// a slow disk: in some runs the writer goroutine takes a second per record (the rule's size question is where
+	// it waits), so that records queue up behind it while time passes; and compressing a backup takes a few
+	// seconds, so that the next rotation's clean-up finds the previous backup both compressed and not yet removed
+	slowWriter := o.Intn(3) == 0
+	slowGzip := gz && o.Intn(2) == 0
+	gzBusy := 0
+	ZsimSeam_gzipFile = nil
+	if slowGzip {
+		gzTakes := time.Duration(zsim.Pick(o, 1500, 2500, 4000)) * time.Millisecond
+		ZsimSeam_gzipFile = func(file string) error {
+			gzBusy++
+			defer func() { gzBusy-- }()
+			in, err := os.ReadFile(file)
+			if err != nil {
+				return err
+			}
+			var buf bytes.Buffer
+			zw := gzip.NewWriter(&buf)
+			zw.Write(in)
+			zw.Close()
+			if err := os.WriteFile(file+gzipExt, buf.Bytes(), 0o600); err != nil {
+				return err
+			}
+			r.Probe("backup_compressed_and_uncompressed_for_a_while")
+			zsim.Sleep(gzTakes) // the compressed copy is complete, the original is still there
+			return os.Remove(file)
+		}
+		defer func() { ZsimSeam_gzipFile = nil }()
+	}
+	wrap := func(rl RotateRule) RotateRule {
+		if slowWriter {
+			return &c19SlowRule{rl, time.Second}
+		}
+		return rl
+	}
 	var rule RotateRule
 	if sizeRule {
 		rule = &SizeLimitRotateRule{
@@ -111,8 +157,8 @@ func c19Run(r *zsim.Run) {
 	} else {
 		rule = DefaultRotateRule(filename, delim, days, gz)
 	}
-	r.Logf("rule size=%v gzip=%v delim=%q days=%d maxBackups=%d maxSize=%d pre=%d start=%s", sizeRule, gz, delim, days, maxBackups, maxSize, npre, now().Format(time.RFC3339))
-	l, err := NewLogger(filename, rule, gz)
+	r.Logf("rule size=%v gzip=%v delim=%q days=%d maxBackups=%d maxSize=%d pre=%d start=%s slowWriter=%v slowGzip=%v", sizeRule, gz, delim, days, maxBackups, maxSize, npre, now().Format(time.RFC3339), slowWriter, slowGzip)
+	l, err := NewLogger(filename, wrap(rule), gz)
 	if err != nil {
 		r.Failf("constructor", "NewLogger: %v", err)
 		return
@@ -381,7 +427,50 @@ func c19Run(r *zsim.Run) {
 	reuseBuf := o.Intn(2) == 0
 	var scratch []byte
 	for s := 0; s < nsteps && !r.Failed(); s++ {
-		switch o.Intn(7) {
+		step := o.Intn(7)
+		if slowWriter && o.Intn(4) == 0 {
+			step = 7
+		}
+		switch step {
+		case 7:
+			// a burst: a producer hands over k records at once (it waits only when the queue is full); the slow
+			// writer works them off one a second, and the directory is inspected after each
+			k := zsim.Pick(o, 3, 8, 20, 3, 8, 110)
+			var recs []string
+			for i := 0; i < k; i++ {
+				seq++
+				recs = append(recs, fmt.Sprintf("rec-%06d %s\n", seq, strings.Repeat("x", o.Intn(120))))
+			}
+			for _, rec := range recs {
+				written = append(written, rec)
+				recLen[rec] = len(rec)
+			}
+			r.Quiesce()
+			queued := 0
+			r.Go("producer", func() {
+				for _, rec := range recs {
+					if nw, err := l.Write([]byte(rec)); err != nil || nw != len(rec) {
+						r.Failf("write-rejected", "Write on an open logger returned (%d, %v)", nw, err)
+						return
+					}
+					queued++
+				}
+			})
+			r.Probe(fmt.Sprintf("burst_of_%d", k))
+			r.Logf("burst of %d records at %s", k, now().Format(time.RFC3339))
+			zsim.Sleep(1500 * time.Millisecond)
+			for _, rec := range recs {
+				r.Quiesce()
+				if r.Failed() || !inspect(rec) {
+					return
+				}
+				zsim.Sleep(time.Second)
+			}
+			if queued != k {
+				r.Failf("write-blocked", "the producer handed over %d of %d records although the writer has worked off all of them", queued, k)
+				return
+			}
+			continue
 		case 6: // the process restarts: the logger is closed and a new one is opened on the same, non-empty, file
 			r.Quiesce()
 			if err := l.Close(); err != nil {
@@ -398,7 +487,7 @@ func c19Run(r *zsim.Run) {
 				rule = DefaultRotateRule(filename, delim, days, gz)
 			}
 			var err error
-			if l, err = NewLogger(filename, rule, gz); err != nil {
+			if l, err = NewLogger(filename, wrap(rule), gz); err != nil {
 				r.Failf("constructor", "NewLogger on the existing file: %v", err)
 				return
 			}
@@ -444,6 +533,9 @@ func c19Run(r *zsim.Run) {
 				}
 				written = append(written, rec)
 				recLen[rec] = len(rec)
+				if slowWriter {
+					zsim.Sleep(1500 * time.Millisecond)
+				}
 				r.Quiesce()
 				r.Logf("wrote rec-%06d (%d bytes) at %s", seq, len(rec), now().Format(time.RFC3339))
 				if !inspect(rec) {
@@ -462,6 +554,9 @@ func c19Run(r *zsim.Run) {
 		}
 	}
 	r.Quiesce()
+	for i := 0; gzBusy > 0 && i < 100; i++ {
+		zsim.Sleep(time.Second)
+	}
 	cerr := l.Close()
 	r.Logf("close -> %v; rotations=%d records=%d", cerr, rotations, len(written))
 	r.Quiesce()
